@@ -185,27 +185,125 @@ def directed_cases():
                     ["p", [[D(0, 0, 0), D(0, 1, 0)], [D(0, 2, 0), D(0, 3, 0)], [D(1, 4, 0), D(0, 5, 3)]]]]}
     out.append(("dir_shapes", {"op": "struct", "layers": None, "ncs": None, "macros": [
         {"name": "m", "size": [D(0, 10, 0), D(0, 20, 0)], "pins": [{"name": "A", "ports": [[lg], [dict(lg, layer="met2"), lg]]}], "obs": [lg]}]}))
+    out += audit_cases()
     return out
 
-def lib_to_text(lib):
-    """LEF source of a plain library (struct case)."""
-    o = ["VERSION 5.8 ;"]
+def audit_cases():
+    """Directed families of the generator audit (2026-10-02): list lengths 0 and many, degenerate and explicitly closed shapes, many / similar layer
+    names and caller tables, one off-grid value at every kind of position (also the LAST one, after a long good prefix)."""
+    out = []
+    one, two = D(0, 1, 0), D(0, 2, 0)
+    def mk(macros, **kw):
+        return dict({"op": "struct", "layers": None, "ncs": None, "macros": macros}, **kw)
+    def mac(pins=(), obs=(), size=(one, two), name="m"):
+        return {"name": name, "size": None if size is None else list(size), "pins": list(pins), "obs": list(obs)}
+    def lgm(layer="met1", geoms=(), width=None):
+        return {"layer": layer, "width": width, "spacing": None, "epg": None, "nvias": 0, "geoms": list(geoms)}
+    rect = lambda a, b, c, d: ["r", [a, b], [c, d]]
+    P = lambda x, y, s=0: [D(x < 0, abs(x), s), D(y < 0, abs(y), s)]
+    # -- empty lists at every level
+    out.append(("dir_empty", mk([])))
+    out.append(("dir_empty", mk([], dbu=2000, layers=[[0, "met1"], [1, None]])))
+    out.append(("dir_empty", mk([mac(pins=[{"name": "A", "ports": []}])])))
+    out.append(("dir_empty", mk([mac(pins=[{"name": "A", "ports": [[]]}, {"name": "B", "ports": [[], []]}])])))
+    out.append(("dir_empty", mk([mac(pins=[{"name": "A", "ports": [[lgm()]]}], obs=[lgm("met2"), lgm("met1"), lgm("met2")])])))
+    out.append(("dir_empty", mk([mac(pins=[{"name": "A", "ports": [[lgm(geoms=[rect(one, one, two, two)]), lgm()], []]}])])))
+    out.append(("dir_empty", mk([mac(), mac(), mac(name="n", size=None)])))
+    # -- shapes: explicitly closed / degenerate / unordered / long
+    closed = ["p", [P(0, 0), P(4, 0), P(4, 3), P(0, 3), P(0, 0)]]
+    shapes = [closed, ["p", [P(1, 1), P(1, 1), P(1, 1)]], ["p", [P(0, 0), P(2, 0), P(2, 0), P(2, 2), P(0, 0), P(0, 0)]], rect(*P(5, 6), *P(1, 2)), rect(*P(3, 3), *P(3, 3)),
+              rect(*P(-15, 25, 1), *P(-5, -35, 1)), ["w", [P(0, 0), P(0, 0)]], ["w", [P(0, 0), P(5, 0), P(0, 0)]], ["w", [P(7, 7)]], ["p", [P(7, 7)]], ["p", []], ["w", []],
+              ["p", [P(i, (i * i) % 17 - 8) for i in range(200)]], ["w", [P(-i, i, 1) for i in range(120)]]]
+    for g in shapes:
+        out.append(("dir_geom", mk([mac(pins=[{"name": "A", "ports": [[lgm(geoms=[g], width=D(0, 14, 2))]]}], obs=[lgm("met2", geoms=[g, g], width=D(0, 1, 0))])])))
+    out.append(("dir_geom", mk([mac(obs=[lgm(geoms=shapes[:9], width=D(0, 14, 2))])])))
+    for w in (D(0, 0, 0), D(0, 0, 4), D(1, 0, 2), D(0, 1, 4), D(0, 10000, 8), D(1, 1, 4), D(0, (1 << 63) - 1, 4), D(0, 1 << 63, 4), D(0, (1 << 64) - 1, 4), D(0, 1 << 64, 4), D(0, 1, 5), D(0, 1, 28)):
+        out.append(("dir_geom", mk([mac(obs=[lgm(geoms=[["w", [P(0, 0), P(1, 1)]]], width=w)])])))
+    # -- layer names: many, differing in case only (ASCII and not), `boundary` in several spellings; caller tables that hold some of them
+    many = ["L%d" % i for i in range(40)]
+    similar = ["met1", "MET1", "Met1", "mEt1", "met1_", "met", "é", "É", "boundary", "Boundary", "BOUNDARY", "", " ", "met1 "]
+    for names in (many, similar, similar[::-1]):
+        lgs = [lgm(n, geoms=[rect(*P(i, i + 1), *P(i + 2, i + 3))]) for i, n in enumerate(names)]
+        out.append(("dir_layers", mk([mac(pins=[{"name": "A", "ports": [lgs[::2], lgs[1::2]]}], obs=lgs[::-1] + lgs[:3])])))
+        out.append(("dir_layers", mk([mac(obs=lgs), mac(name="n", obs=lgs[::-1])], layers=[[3, names[1]], [0, None], [1, "boundary"], [2, names[-1]], [4, None], [6, names[1].upper()]])))
+    out.append(("dir_layers", mk([mac(obs=[lgm("a", geoms=[rect(one, one, two, two)])])], layers=[[k, None] for k in range(300)])))
+    out.append(("dir_layers", mk([mac(obs=[lgm("a"), lgm("b")])], layers=[[k, None] for k in range(0, 40, 2)] + [[1, "b"], [-5, "boundary"]])))
+    out.append(("dir_layers", mk([mac(obs=[lgm("a"), lgm("b")])], layers=[[32766, "x"], [32767, "y"], [-32768, "z"], [0, "boundary"], [0, "a"]])))
+    # -- one off-grid value at each kind of position, in several sizes of the excess; also as the very last value of a long library
+    bads = [D(0, 1, 5), D(1, 1, 5), D(0, 100001, 5), D(0, 1, 28), D(1, 10 ** 24 + 1, 28), D(0, 12345678, 8), D(0, 99999, 5), D(1, 314159, 9)]
+    good = lgm(geoms=[rect(*P(1, 2), *P(3, 4)), ["p", [P(0, 0), P(1, 0), P(1, 1)]], ["w", [P(0, 0), P(5, 5)]]], width=D(0, 5, 1))
+    for bi, bad in enumerate(bads):
+        slots = {
+            "size.x": mac(size=(bad, one)), "size.y": mac(size=(one, bad)),
+            "rect.p0.x": mac(obs=[lgm(geoms=[rect(bad, one, two, two)])]), "rect.p0.y": mac(obs=[lgm(geoms=[rect(one, bad, two, two)])]),
+            "rect.p1.x": mac(obs=[lgm(geoms=[rect(one, one, bad, two)])]), "rect.p1.y": mac(obs=[lgm(geoms=[rect(one, one, two, bad)])]),
+            "polygon.last.y": mac(obs=[lgm(geoms=[["p", [P(0, 0), P(1, 0), [one, bad]]]])]), "polygon.first.x": mac(pins=[{"name": "A", "ports": [[lgm(geoms=[["p", [[bad, one], P(1, 0), P(1, 1)]]])]]}]),
+            "path.mid.x": mac(pins=[{"name": "A", "ports": [[lgm(geoms=[["w", [P(0, 0), [bad, one], P(1, 1)]]], width=one)]]}]),
+            "path.width": mac(obs=[lgm(geoms=[["w", [P(0, 0), P(1, 1)]]], width=[False, bad[1], bad[2]])]),
+            "last value of the library": mac(pins=[{"name": "A", "ports": [[good, good], [good]]}, {"name": "B", "ports": [[good]]}],
+                                             obs=[good, good, lgm("met3", geoms=[rect(one, one, two, two), ["p", [P(0, 0), P(1, 0), [one, bad]]]])]),
+        }
+        for what, m in slots.items():
+            if bi < 4 or what in ("size.x", "rect.p1.y", "path.width", "last value of the library"):
+                out.append(("dir_offgrid", mk([mac(name="ok"), m] if what.startswith("last") else [m])))
+    return out
+
+EXTRA_HEAD = ['BUSBITCHARS "[]" ;', 'DIVIDERCHAR "/" ;', "MANUFACTURINGGRID 0.005 ;", "MANUFACTURINGGRID 1 ;", "USEMINSPACING OBS ON ;", "CLEARANCEMEASURE EUCLIDEAN ;", "FIXEDMASK ;",
+              "UNITS\n  DATABASE MICRONS 100 ;\n  TIME NANOSECONDS 1 ;\n  CAPACITANCE PICOFARADS 1 ;\n  RESISTANCE OHMS 1 ;\n  POWER MILLIWATTS 1 ;\n  CURRENT MILLIAMPS 1 ;\n  VOLTAGE VOLTS 1 ;\n  FREQUENCY MEGAHERTZ 1 ;\nEND UNITS",
+              "UNITS\n  DATABASE MICRONS 20000 ;\nEND UNITS", "UNITS\nEND UNITS",
+              "PROPERTYDEFINITIONS\n  MACRO scale REAL 2.0 ;\n  PIN offset INTEGER RANGE 0 10 ;\nEND PROPERTYDEFINITIONS",
+              "SITE core\n  CLASS CORE ;\n  SYMMETRY Y ;\n  SIZE 0.46 BY 2.72 ;\nEND core", "SITE pad\n  CLASS PAD ;\n  SIZE 10 BY 20 ;\nEND pad",
+              "VIA via12 DEFAULT\n  RESISTANCE 2 ;\n  LAYER met1 ;\n    RECT -0.1 -0.1 0.1 0.1 ;\n  LAYER via1 ;\n    RECT -0.05 -0.05 0.05 0.05 ;\nEND via12",
+              'BEGINEXT "tag"\n  CREATOR "x" ;\nENDEXT']
+EXTRA_MACRO = ["CLASS CORE ;", "CLASS BLOCK BLACKBOX ;", "CLASS PAD INPUT ;", "CLASS COVER BUMP ;", "FOREIGN other 0.5 0.25 ;", "FOREIGN other 1 1 FS ;", "ORIGIN 0.5 0.25 ;", "ORIGIN -1 -2 ;", "ORIGIN 0 0 ;",
+               "SYMMETRY X Y R90 ;", "SITE core ;", "EEQ other ;", "FIXEDMASK ;", 'PROPERTY scale 2.0 name "n" ;', "DENSITY\n    LAYER met1 ;\n      RECT 0 0 1 1 50 ;\n  END"]
+EXTRA_PIN = ["DIRECTION INPUT ;", "DIRECTION OUTPUT TRISTATE ;", "USE POWER ;", "USE SIGNAL ;", "SHAPE ABUTMENT ;", "ANTENNAMODEL OXIDE1 ;", "ANTENNAGATEAREA 0.5 LAYER met1 ;", "ANTENNADIFFAREA 1.25 ;",
+             "TAPERRULE r ;", "MUSTJOIN B ;", 'NETEXPR "power VDD" ;', "SUPPLYSENSITIVITY VDD ;", "GROUNDSENSITIVITY VSS ;", "PROPERTY offset 3 ;"]
+
+def lib_to_text(lib, rng=None):
+    """LEF source of a plain library (struct case). With `rng`: statements the importer has no use for are added at random (header
+    statements, sites, vias, extensions; macro CLASS / FOREIGN / ORIGIN / SYMMETRY / SITE / PROPERTY / DENSITY; pin attributes; PORT CLASS;
+    shape MASK numbers) -- none of them may move or scale a coordinate."""
+    pick = (lambda pool, p=0.35: [x for x in pool if rng.random() < p]) if rng else (lambda pool, p=0: [])
+    mask = (lambda: " MASK %d" % rng.randrange(1, 4) if rng.random() < 0.3 else "") if rng else (lambda: "")
+    o = ["VERSION %s ;" % (rng.choice(["5.8", "5.7", "5.6", "5.5"]) if rng else "5.8")]
+    head = pick(EXTRA_HEAD, 0.3)
+    if sum(1 for h in head if h.startswith("UNITS")) > 1:
+        head = [h for h in head if not h.startswith("UNITS")] + [rng.choice([h for h in head if h.startswith("UNITS")])]
+    if sum(1 for h in head if h.startswith("MANUFACTURINGGRID")) > 1:
+        head = [h for h in head if h != "MANUFACTURINGGRID 1 ;"]
+    o += head
     def lgtxt(lg, ind):
         o.append("%sLAYER %s ;" % (ind, lg["layer"]))
         if lg["width"] is not None:
             o.append("%s  WIDTH %s ;" % (ind, dec_text(lg["width"])))
         for g in lg["geoms"]:
             if g[0] == "r":
-                o.append("%s  RECT %s %s %s %s ;" % (ind, dec_text(g[1][0]), dec_text(g[1][1]), dec_text(g[2][0]), dec_text(g[2][1])))
+                o.append("%s  RECT%s %s %s %s %s ;" % (ind, mask(), dec_text(g[1][0]), dec_text(g[1][1]), dec_text(g[2][0]), dec_text(g[2][1])))
             else:
-                o.append("%s  %s %s ;" % (ind, "POLYGON" if g[0] == "p" else "PATH", " ".join(dec_text(p[0]) + " " + dec_text(p[1]) for p in g[1])))
+                o.append("%s  %s%s %s ;" % (ind, "POLYGON" if g[0] == "p" else "PATH", mask(), " ".join(dec_text(p[0]) + " " + dec_text(p[1]) for p in g[1])))
     for m in lib["macros"]:
         o.append("MACRO %s" % m["name"])
+        mx = pick(EXTRA_MACRO)
+        for key in ("CLASS", "FOREIGN", "ORIGIN"):          # one of each kind, half of them before SIZE and half after
+            ks = [x for x in mx if x.startswith(key)]
+            mx = [x for x in mx if not x.startswith(key)] + ks[:1]
+        if rng:
+            rng.shuffle(mx)
+        o += ["  " + x for x in mx[: len(mx) // 2]]
         o.append("  SIZE %s BY %s ;" % (dec_text(m["size"][0]), dec_text(m["size"][1])))
+        o += ["  " + x for x in mx[len(mx) // 2:]]
         for p in m["pins"]:
             o.append("  PIN %s" % p["name"])
+            px = pick(EXTRA_PIN, 0.25)
+            for key in ("DIRECTION", "USE"):
+                ks = [x for x in px if x.startswith(key)]
+                px = [x for x in px if not x.startswith(key)] + ks[:1]
+            o += ["    " + x for x in px]
             for port in p["ports"]:
                 o.append("    PORT")
+                if rng and rng.random() < 0.3:
+                    o.append("      CLASS %s ;" % rng.choice(["NONE", "CORE", "BUMP"]))
                 for lg in port:
                     lgtxt(lg, "      ")
                 o.append("    END")
@@ -260,6 +358,10 @@ def gen_cases(chk):
     for _ in range(120 * mult):
         lib = gen_lib(rng, rng.choice(["plain", "plain", "bad"]))
         add("text", {"op": "text", "text": lib_to_text(lib), "tmp": tmp, "layers": lib["layers"], "intended": lib})
+    # the same, with statements the importer has no use for (ORIGIN, FOREIGN, MANUFACTURINGGRID, UNITS, SITE, VIA, MASK, pin attributes ...)
+    for i in range(90 * mult):
+        lib = gen_lib(rng, rng.choice(["plain", "plain", "plain", "bad"]))
+        add("text_extras", {"op": "text", "text": lib_to_text(lib, rng), "tmp": tmp, "layers": lib["layers"], "intended": lib})
     # the decimal operations one by one
     for _ in range(500 * mult):
         add("dec", {"op": "dec", "d": gen_dec(rng, rng.choice(["int", "dec4", "tz", "bad", "zero", "big", "huge", "huge", "huge"]))})
@@ -380,7 +482,17 @@ def evaluate(chk, cases, tag, fn="c16_check"):
                 continue
         items.append(capp(fn, clayers0(c.get("layers")), clib(lib), cires(r)))
         idx.append(i)
-    codes = coq_eval_lists(HDR, items, chk.rundir, tag, shard=120)
+    # shards of equal work: items dealt to the shards by decreasing size
+    nsh = max(1, -(-len(items) // 120))
+    by_size = sorted(range(len(items)), key=lambda j: -len(items[j]))
+    buckets = [by_size[k::nsh] for k in range(nsh)]
+    shard = max(1, max(len(b) for b in buckets))
+    perm = [j for b in buckets for j in b + [None] * (shard - len(b))]
+    codes_p = coq_eval_lists(HDR, [items[j] if j is not None else "0" for j in perm], chk.rundir, tag, shard=shard)
+    codes = [None] * len(items)
+    for j, o in zip(perm, codes_p):
+        if j is not None:
+            codes[j] = o
     for i, s in zip(idx, codes):
         out[i] = (parse_z(s), res[i])
     return out
@@ -439,7 +551,9 @@ def run(chk, replay=None):
     chk.cov["input_distribution"] = dist
     chk.cov["rule"] = ("LEF libraries built in the harness from generated structures (1-3 macros, SIZE, 0-3 pins x 1-2 ports x 1-2 LAYER statements, obstructions, "
                        "RECT/POLYGON/PATH+WIDTH, decimals with 0-6(+) places, negatives, trailing zeros, off-grid values, values near 2^63 and 2^96, "
-                       "unsupported features, caller-provided layer tables) or read by lef21 from generated LEF text; a case is non-trivial when it has a macro with a SIZE "
+                       "unsupported features, caller-provided layer tables) or read by lef21 from generated LEF text (text_extras: with the statements the importer ignores -- ORIGIN, FOREIGN, "
+                       "MANUFACTURINGGRID, UNITS, SITE, VIA, MASK, pin attributes); directed: empty lists at every level, closed / degenerate / 200-point shapes, path widths at the "
+                       "64-bit edges, 40 layer names, names differing in case only, caller tables, one off-grid value at every kind of position; a case is non-trivial when it has a macro with a SIZE "
                        "(dec cases: non-zero); distinct by full case content")
     results = evaluate(chk, cases, "c16")
     if not replay:
@@ -474,7 +588,8 @@ def run(chk, replay=None):
         c, r = viol[0]
         chk.violation("LefImporter::import: case %s impl=%s fails the property (%d failing cases of %d)"
                       % (json.dumps(strip(c))[:600], json.dumps(r[1].get("res", r[1]))[:600], len(viol), len(cases)),
-                      {"cases": [c for c, _ in viol[:50]], "impl": [r[1] for _, r in viol[:10]]})
+                      {"cases": [c for c, _ in viol[:50]], "impl": [r[1] for _, r in viol[:10]],
+                       "smallest_by_kind": {k: next({"case": strip(c), "impl": json.dumps(r[1].get("res", r[1]))[:400]} for c, r in viol if c.get("kind", "?") == k) for k in bykind}})
     elif mism:
         c, r = min(mism, key=lambda cr: case_size(cr[0]))
         chk.broken.append("correspondence C16: impl differs from model where the property is silent (%d cases), e.g. %s impl=%s"
